@@ -165,7 +165,7 @@ arr_real resample(const arr_real& x, int p_, int q_, const arr_real& h) {
     const int nx = IResampler::next_size(x.size(), p, q);
     const int ny = nx * p / q;
     const int dl = rsmp.delay();
-    const int mdl = dl * q / p;
+    const int mdl = (dl * q + p - 1) / p;
     const int nn = IResampler::next_size(nx + mdl, p, q);
     const auto xx = zeropad(x, nn);
     const auto y = *rsmp.process(xx).slice(dl, dl + ny);
